@@ -324,7 +324,7 @@ def nontrivial(case: Case, out: str) -> bool:
 
 
 def generate(rng: random.Random, tier: str):
-    n = 21000 if tier == "quick" else 240000
+    n = 40000 if tier == "quick" else 240000
     out = []
     for i in range(n):
         kind = "cycle" if rng.random() < 0.15 else "ranked"
